@@ -431,7 +431,23 @@ class Finder(importlib.abc.MetaPathFinder, importlib.abc.Loader):
             d["np"] = NP
         if "perm" in d and getattr(d["perm"], "__module__", "").startswith("thewalrus"):
             d["perm"] = exact_perm
+        if module.__name__.endswith("probability_distribution") and "pdist_calc" in d:
+            d["pdist_calc"] = _by_key_class(d["pdist_calc"])
         LIFTED.append(module.__spec__.origin)
+
+
+def _by_key_class(mm):
+    """multimethod dispatch of pdist_calc is on dict[State, int | float] vs dict[AnnotatedState, ...]; the exact scalar is
+    neither int nor float, so under xlift the dispatch is done on the class of the dict keys only (same two bodies)."""
+    fns = {f.__name__: f for f in mm.values()}
+
+    def pdist_calc(circuit, inputs, backend):
+        key = next(iter(inputs), None)
+        if type(key).__name__ == "AnnotatedState":
+            return fns["annotated_state_pdist_calc"](circuit, inputs, backend)
+        return fns["pdist_calc"](circuit, inputs, backend)
+    pdist_calc.register = mm.register
+    return pdist_calc
 
 
 LIFTED = []
